@@ -772,6 +772,9 @@ func runNative(c *CheckCfg, dir string, cases []replayCase) ([]nativeOut, error)
 	cmd.Dir = pkgDir(c)
 	cmd.Env = append(os.Environ(), "GOFLAGS=-mod=mod", "GOPROXY=off", "GOSUMDB=off", "GOTOOLCHAIN=local", "VERIF_REPLAY_CASES="+casesPath)
 	outb, err := cmd.CombinedOutput()
+	if os.Getenv("VERIF_NATIVE_LOG") != "" {
+		os.WriteFile(os.Getenv("VERIF_NATIVE_LOG"), outb, 0644)
+	}
 	outs := make([]nativeOut, len(cases))
 	got := 0
 	for _, line := range strings.Split(string(outb), "\n") {
